@@ -17,7 +17,7 @@ LEVEL = "exploration"
 PRELUDE = open(os.path.join(core.VERIF, "janet", "canon.janet")).read() + r'''
 (def LOG @[])
 (defn L [i x] (array/push LOG i) x)
-(def OBJ (table/setproto @{:name "obj"} @{:+ (fn [a b] :plus) :r+ (fn [a b] :rplus) :- (fn [a b] :minus) :* (fn [a b] [:times (type b)])
+(def OBJ (table/setproto @{:name "obj"} @{:+ (fn [a b] :plus) :r+ (fn [a b] :rplus) :- (fn [a b] :minus) :* (fn [a b] [:times (type b)]) :r* (fn [a b] [:rtimes (type b)])
                                          :< (fn [a b] true) :compare (fn [a b] -1) :length (fn [a] 77) :get (fn [a k] :got)
                                          :/ (fn [a b] :div) :% (fn [a b] :rem) :mod (fn [a b] :mod) :div (fn [a b] :fdiv)
                                          :& (fn [a b] :and) :| (fn [a b] :or) :^ (fn [a b] :xor) :<< (fn [a b] :shl) :>> (fn [a b] :shr) :~ (fn [a] :not)}))
@@ -88,7 +88,12 @@ def make_case(rng, cid):
     routes.append(("ifcond", "(if (%s %s) :t :f)" % (f, logged)))
     routes.append(("whilecond", "(do (var once true) (var r :f) (while (and once (%s %s)) (set once false) (set r :t)) r)" % (f, logged)))
     routes.append(("dropped", "(do (%s %s) :done)" % (f, logged)))
-    if n >= 1 and f != "put":
+    if 0 < sum(o[1] for o in ops) < n:
+        # literal operands left as compile-time constants (immediate forms), the others evaluated at run time
+        routes.append(("litmix", "(%s %s)" % (f, " ".join(o[0] if o[1] else "(L %d %s)" % (i, o[0]) for i, o in enumerate(ops)))))
+    if n >= 3:
+        routes.append(("settarget-mid", "(do (var x %s) (set x (%s (L 0 %s) x %s)) x)" % (ops[1][0], f, ops[0][0], " ".join("(L %d %s)" % (i + 2, o[0]) for i, o in enumerate(ops[2:])))))
+    if n >= 1:
         routes.append(("settarget", "(do (var x %s) (set x (%s %s%sx)) x)" % (ops[-1][0], f, " ".join("(L %d %s)" % (i, o[0]) for i, o in enumerate(ops[:-1])), " " if n > 1 else "")))
         routes.append(("settarget-first", "(do (var x %s) (set x (%s x%s%s)) x)" % (ops[0][0], f, " " if n > 1 else "", " ".join("(L %d %s)" % (i + 1, o[0]) for i, o in enumerate(ops[1:])))))
     if rng.random() < 0.10 or (f in ("length", "bnot", "next", "get", "in") and rng.random() < 0.4):
@@ -169,7 +174,7 @@ def run(ctx):
                     # the variable itself is one operand: the log has one entry fewer
                     want_log = None
                 else:
-                    want_log = ref_log if name not in ("locals", "const", "far", "far-keep") else None
+                    want_log = ref_log if name not in ("locals", "const", "far", "far-keep", "litmix") else None
                 if r_res != want:
                     kind = "raise-mismatch" if (r_res == "err") != (want == "err") else "value"
                     opclass = (":" + "+".join(o[0] for o in ops)) if n <= 1 else ""
